@@ -2620,25 +2620,33 @@ def namespace_to_flowir(
 
     component_names: typing.Dict[str, int] = {}
     uid_to_name: typing.Dict[typing.Tuple[str, ...], typing.Tuple[int, str]] = {}
+    # VV: (stage, name) identifiers that have already been handed out
+    taken_ids: typing.Set[typing.Tuple[int, str]] = set()
 
     pattern_name = re.compile(SignatureNamePattern)
 
     for _, comp in components.items():
         assert isinstance(comp.scope.template, Component)
 
-        if comp.step_name not in component_names:
-            component_names[comp.step_name] = 0
-            name = comp.step_name
-        else:
-            component_names[comp.step_name] += 1
-            prior = component_names[comp.step_name]
-            name = "-".join((comp.step_name, number_to_roman_like_numeral(prior)))
+        while True:
+            if comp.step_name not in component_names:
+                component_names[comp.step_name] = 0
+                name = comp.step_name
+            else:
+                component_names[comp.step_name] += 1
+                prior = component_names[comp.step_name]
+                name = "-".join((comp.step_name, number_to_roman_like_numeral(prior)))
 
+            match = pattern_name.fullmatch(name)
+            match_groups = match.groupdict()
+            comp_id = (int(match_groups.get("stage") or 0), match_groups["name"])
 
-        match = pattern_name.fullmatch(name)
-        match_groups = match.groupdict()
+            # VV: a generated name (e.g. "foo-I") may coincide with the literal name of another step, skip those
+            if comp_id not in taken_ids:
+                break
 
-        uid_to_name[tuple(comp.scope.location)] = (int(match_groups.get("stage") or 0), match_groups["name"])
+        taken_ids.add(comp_id)
+        uid_to_name[tuple(comp.scope.location)] = comp_id
 
         comp.flowir['name'] = uid_to_name[tuple(comp.scope.location)][1]
         comp.flowir['stage'] = uid_to_name[tuple(comp.scope.location)][0]
